@@ -127,6 +127,21 @@ class CompactRun(IndexRun):
         self.loop.close()
         self.loop = None
 
+    def abandon_tool(self):
+        '''The tool's process ends without set_flush_count (killed, or simply not run to the end).'''
+        if self.tool_db is None:
+            return
+        h = self.tool_db.history
+        ids = [int.from_bytes(key[-2:], 'big') for key, _v in h.db.iterator() if len(key) == 13]
+        if ids and (max(ids) > self.tool_db.state.flush_count or (h.comp_cursor != -1 and max(ids) > h.flush_count)):
+            # abandoned (or ended before set_flush_count) with more compacted rows for some script than there have been
+            # flushes: only a toy database with rows of one or two entries gets there; the next start takes the high row ids
+            # for an unclean shutdown.  Outside the claim (Compaction.tla: overflow)
+            self.overflow = True
+            if self.overflow_at is None:
+                self.overflow_at = len(self.steps)
+        self.close_tool()
+
     # ---- the plan
     MAP = {1: 4, 2: 2, 3: 3}     # model script -> real script paid by the coinbase of the block
 
@@ -171,8 +186,7 @@ class CompactRun(IndexRun):
                     running = False
                     premined = 0
             elif kind == 'start':
-                if self.tool_db is not None:
-                    self.close_tool()
+                self.abandon_tool()
                 if not running:
                     # blocks the plan flushes before the server is caught up ('serve') are mined first, so that they
                     # are indexed (and flushed) while the server is still syncing, before it re-opens for serving
@@ -211,19 +225,8 @@ class CompactRun(IndexRun):
                 self.tool_view('setfc')
                 self.close_tool()
             elif kind == 'kill':
-                if self.tool_db is not None:
-                    h = self.tool_db.history
-                    ids = [int.from_bytes(key[-2:], 'big') for key, _v in h.db.iterator() if len(key) == 13]
-                    if ids and (max(ids) > self.tool_db.state.flush_count or (h.comp_cursor != -1 and max(ids) > h.flush_count)):
-                        # abandoned (or killed before set_flush_count) with more compacted rows for some script than there
-                        # have been flushes: only a toy database with rows of one or two entries gets there; the next
-                        # start takes the high row ids for an unclean shutdown.  Outside the claim (Compaction.tla: overflow)
-                        self.overflow = True
-                        if self.overflow_at is None:
-                            self.overflow_at = len(self.steps)
-                    self.close_tool()
-        if self.tool_db is not None:
-            self.close_tool()
+                self.abandon_tool()
+        self.abandon_tool()
         if not running:
             self.boot()
             self.last_sig = None
